@@ -1,6 +1,9 @@
 //! A work coalescing queue batches work to be done together, for purposes of performance.
 
+#[cfg(not(rescrv_blue_verif_shuttle))]
 use std::sync::{Mutex, MutexGuard};
+#[cfg(rescrv_blue_verif_shuttle)]
+use shuttle::sync::{Mutex, MutexGuard};
 
 use biometrics::{Collector, Counter};
 
